@@ -322,6 +322,44 @@ fn digest_case_with(variant: u32, msg: &[u8], r: Option<Vec<u8>>, kind: &str) ->
     }
 }
 
+/// Definitions prepended to the generated case files (nothing in /verif/coq changes): `LP len seed` is the
+/// number whose little-endian encoding is the `len` bytes "high byte of x_i", x_0 = seed, x_{i+1} = 5 x_i + 12345
+/// mod 2^16 (period 2^16, no two 64-byte blocks of a 64 KiB message equal). coqc needs ~80 us per byte of a
+/// literal (5 s for 64 KiB); this term costs a few ms.
+const LP_HEADER: &str = "From CC Require Import Lib.Bytes.\nFixpoint lp_bytes (n : nat) (x : N) : list N := match n with O => nil | S k => cons (N.shiftr x 8%N) (lp_bytes k (N.land (x * 5 + 12345)%N 65535%N)) end.\nDefinition LP (n seed : N) : N := le_join (lp_bytes (N.to_nat n) (N.land seed 65535%N)).";
+fn lp_fill(n: usize, seed: u16) -> Vec<u8> {
+    let mut x = seed as u32;
+    (0..n)
+        .map(|_| {
+            let b = (x >> 8) as u8;
+            x = (x * 5 + 12345) & 0xffff;
+            b
+        })
+        .collect()
+}
+
+/// ONE `update` call with a long message (8 KiB, 64 KiB + 1): the one-shot stream otherwise stops at ~4 KiB,
+/// so a fast path of `update` for large inputs would only be seen by the relative checks (C08, C17)
+fn big_update_case(variant: u32, len: usize, seed: u16) -> Case {
+    let msg = lp_fill(len, seed);
+    let r = guarded(|| digest(variant, &msg));
+    let (d, outcome, problem) = observe(variant, r);
+    let mut key = vec![4u8];
+    key.extend_from_slice(&variant.to_le_bytes());
+    key.extend_from_slice(&(len as u64).to_le_bytes());
+    key.extend_from_slice(&seed.to_le_bytes());
+    Case {
+        coq: format!("BU {} true [({}, (LP {} {}))] {}", variant, len, len, seed, nlit(&d)),
+        json: format!(
+            "{{\"kind\":\"digest of ONE update call with a long message\",\"variant\":{},\"len\":{},\"msg_rule\":\"byte i = x_i >> 8, x_0 = {}, x_(i+1) = (5 x_i + 12345) mod 65536\",\"msg_first_bytes\":{},\"outcome\":\"{}\",\"digest_len\":{},\"expected_digest_len\":{},\"digest\":{}}}",
+            variant, len, seed, jstr(&hex(&msg[..16])), outcome, d.len(), out_len(variant), jstr(&hex(&d))
+        ),
+        key,
+        nontrivial: true,
+        problem,
+    }
+}
+
 /// message given in parts: oneshot = hash the concatenation with one `update` (parts only
 /// keep the Coq literals short); otherwise one `update` call per part
 fn parts_case(variant: u32, parts: &[Vec<u8>], oneshot: bool) -> Case {
@@ -458,6 +496,7 @@ fn main() {
     let mut max_len = 0usize;
     let (mut n_real, mut real_bytes) = (0usize, 0u64);
     let (mut n_same, mut n_big) = (0usize, 0usize);
+    let (mut n_bigone, mut max_one_update) = (0usize, 0usize);
 
     // 0. C17: really stream up to just below 2^32 bits (512 MiB) into Blake224/256 (which of the two comes first
     //    rotates with the seed), read the state back (the counter must be exactly the bits compressed so far),
@@ -572,6 +611,21 @@ fn main() {
             let parts: Vec<Vec<u8>> = msg.chunks(1024).map(|c| c.to_vec()).collect();
             cases.push(parts_case(v, &parts, true));
             n_sparse += 1;
+        }
+    }
+    // 2a. ONE update with 8 KiB and with 64 KiB + 1 bytes per variant (not in the tiny streams); consecutive
+    //     cases, i.e. eight different Coq shards
+    //     (measured: ~15 ms per block for model + spec in coqc, i.e. 64 KiB + 1 costs one shard ~15 s: only ONE variant,
+    //     rotating with the seed, gets it, the others 16 KiB + 1; the reduced stream (release profile) 8 KiB only)
+    if !tiny {
+        for (vi, &v) in variants.iter().enumerate() {
+            let long = if vi as u64 == seed % 4 { 65537usize } else { 16385 };
+            let lens: &[usize] = if reduced { &[8192] } else { &[8192, long] };
+            for &len in lens {
+                cases.push(big_update_case(v, len, rng.below(1 << 16) as u16));
+                n_bigone += 1;
+                max_one_update = max_one_update.max(len);
+            }
         }
     }
     // 2b. several update calls: every split point of messages around the block boundaries
@@ -735,7 +789,7 @@ fn main() {
     write_shards(
         &out,
         shards,
-        "From Coq Require Import NArith List.\nFrom CC Require Import Run.Runner Run.Blake.",
+        &format!("From Coq Require Import NArith List.\nFrom CC Require Import Run.Runner Run.Blake.\n{}", LP_HEADER),
         "bcase",
         "run_blake",
         &coq,
@@ -752,13 +806,15 @@ fn main() {
         samples.push(c.json.clone());
     }
     println!(
-        "{{\"evaluations\":{},\"distinct_nontrivial\":{},\"length_sweep\":{},\"sparse_long\":{},\"multi_update\":{},\"max_len\":{},\"hook_state_cases\":{},\"hook_roundtrips\":{},\"real_stream_cases\":{},\"real_stream_same_object_cases\":{},\"single_update_of_2_29_plus_64_bytes\":{},\"really_streamed_bytes\":{},\"digest_lengths_checked\":{},\"digests_of_wrong_length\":{},\"panics\":{},\"backend_level\":{},\"variants\":[224,256,384,512],\"direct_failures\":[{}],\"samples\":[{}]}}",
+        "{{\"evaluations\":{},\"distinct_nontrivial\":{},\"length_sweep\":{},\"sparse_long\":{},\"multi_update\":{},\"max_len\":{},\"digests_of_one_long_update\":{},\"longest_single_update_digest\":{},\"hook_state_cases\":{},\"hook_roundtrips\":{},\"real_stream_cases\":{},\"real_stream_same_object_cases\":{},\"single_update_of_2_29_plus_64_bytes\":{},\"really_streamed_bytes\":{},\"digest_lengths_checked\":{},\"digests_of_wrong_length\":{},\"panics\":{},\"backend_level\":{},\"variants\":[224,256,384,512],\"direct_failures\":[{}],\"samples\":[{}]}}",
         cases.len(),
         distinct.len(),
         n_sweep,
         n_sparse,
         n_updates,
         max_len,
+        n_bigone,
+        max_one_update,
         n_hook,
         n_rt,
         n_real,
